@@ -150,25 +150,34 @@ def mk_line(head, frames, probes):
     return "%s %s | %s" % (" ".join(head), ",".join(frames), " ".join(probes))
 
 
-def disagrees(run, exe, line):
+def verdict(run, exe, line):
+    """'crash' | 'spec' | 'tie' | None for one case."""
     model, impl, crashes, spec = run_both(run, exe, [line], "one")
-    return bool(crashes) or model != impl or bool(spec)
+    if crashes:
+        return "crash"
+    if spec:
+        return "spec"
+    if model != impl:
+        return "tie"
+    return None
 
 
-def shrink(run, exe, line):
+def shrink(run, exe, line, kind):
+    """Smaller case with the same kind of failure (a spec violation is not traded for a mere tie difference)."""
     head, frames, probes = frames_of(line)
     if len(probes) > 1:
-        probes = core.shrink_list(probes, lambda c: disagrees(run, exe, mk_line(head, frames, c)), max_tests=60)
+        probes = core.shrink_list(probes, lambda c: verdict(run, exe, mk_line(head, frames, c)) == kind, max_tests=60)
     if len(frames) > 1:
-        frames = core.shrink_list(frames, lambda c: disagrees(run, exe, mk_line(head, c, probes)), max_tests=200)
+        frames = core.shrink_list(frames, lambda c: verdict(run, exe, mk_line(head, c, probes)) == kind, max_tests=200)
     return mk_line(head, frames, probes)
 
 
 def report(run, exe, line):
-    if not disagrees(run, exe, line):
+    kind0 = verdict(run, exe, line)
+    if kind0 is None:
         run.count("unreproducible-disagreement")
         return
-    small = shrink(run, exe, line)
+    small = shrink(run, exe, line, kind0)
     model, impl, crashes, spec = run_both(run, exe, [small], "one")
     replay = {"engine": "xen", "case": small, "model": model[0], "implementation": impl[0],
               "spec_verdict": spec.get(0, "ok"),
@@ -249,7 +258,8 @@ def check(run):
             run.note_case(l, nt)
             if s0 == 0 and i in (0, n_idx // 2, len(part) - 1):
                 run.sample({"case": l[:300], "impl": o[:300]})
-        for i in sorted(bad)[:4]:
+        first = sorted(set(crashes) | set(spec))[:3]
+        for i in first + [j for j in sorted(bad) if j not in first][:max(1, 4 - len(first))]:
             report(run, exe, part[i])
         if len(run.violations) > 3:
             break
